@@ -494,6 +494,8 @@ def attr_model(I, obj, name):
     from . import models_tahoe as T
     if isinstance(obj, T.HashObj):
         return T.hash_attr(I, obj, name)
+    if isinstance(obj, T.DStub):
+        return T.dstub_attr(I, obj, name)
     if isinstance(obj, (SStr, bytes, str)) and name == "__hash__":
         return ModelFn_("str.__hash__", lambda I_, a, k: hash_of(I, obj))
     if isinstance(obj, (SStr,)) or (isinstance(obj, (bytes, str)) and name in _STR_METHODS):
